@@ -112,6 +112,20 @@ Deliver(n) ==
   /\ delivered' = delivered + n
   /\ UNCHANGED <<scen, appW, appLost>>
 
+\* As Deliver(n), where these n bytes complete a successful CONNECT and the application's "connected" callback,
+\* while it runs, makes k more bytes arrive (it writes its first request over an in-memory transport whose peer
+\* answers at once, or it re-enters the event loop): they follow whatever the success segment already carried.
+\* The harness compares the application's bytes with the stream, so the order counts.
+DeliverNested(n, k) ==
+  /\ ~gone /\ n >= 1 /\ k >= 1 /\ delivered + n + k <= Total(scen)
+  /\ scen.req = "CONNECT" /\ done.k = "p"
+  /\ LET r == Process([Rec EXCEPT !.buf = @ + n]) IN
+       /\ r.done.k = "ok" /\ r.st = "relaying" /\ ~r.exc
+       /\ st' = r.st /\ buf' = r.buf /\ sentReq' = r.sentReq /\ app' = r.app /\ appN' = r.appN + k
+       /\ done' = r.done /\ closed' = r.closed /\ exc' = r.exc /\ gone' = gone
+  /\ delivered' = delivered + n + k
+  /\ UNCHANGED <<scen, appW, appLost>>
+
 Disconnect ==
   /\ ~gone
   /\ gone' = TRUE
@@ -135,6 +149,7 @@ AppClose ==
 Next ==
   \/ AppClose
   \/ \E n \in 1..MaxChunk : Deliver(n)
+  \/ \E n \in 1..MaxChunk, k \in 1..MaxApp : DeliverNested(n, k)
   \/ Disconnect
   \/ AppWrite /\ appW < 1
 
